@@ -362,6 +362,7 @@ type reqPlan struct {
 	Violate      string // Go name of a parameter to send with a validator-violating value
 	BadBody      bool
 	OmitOptional bool // leave out every optional (pointer, no required) parameter
+	Decoys       bool // repeat every parameter's wire name with a decoy value in the locations it is NOT declared in
 }
 
 func isRequired(pr synth.Param) bool { return pr.Required() }
@@ -494,6 +495,41 @@ func buildRequest(r *rand.Rand, p *synth.Project, c *synth.Controller, m *synth.
 			hasForm = true
 			form.Add(pr.WireName(), wires[0])
 		}
+	}
+	if plan.Decoys {
+		taken := map[string]bool{}
+		hasBody := false
+		for _, pr := range m.Params {
+			taken[pr.In+":"+strings.ToLower(pr.WireName())] = true
+			if pr.In == "body" {
+				hasBody = true
+			}
+		}
+		canForm := !hasBody && (m.Verb == "POST" || m.Verb == "PUT" || m.Verb == "PATCH")
+		planted := 0
+		for _, pr := range m.Params {
+			if pr.In == "ctx" || pr.In == "body" {
+				continue
+			}
+			name := pr.WireName()
+			if pr.In != "query" && !taken["query:"+strings.ToLower(name)] {
+				q.Add(name, "decoy-from-query")
+				planted++
+			}
+			if pr.In != "header" && !taken["header:"+strings.ToLower(name)] && !strings.ContainsAny(name, " :") {
+				br.Req.Headers[name] = "decoy-from-header"
+				planted++
+			}
+			if pr.In != "form" && canForm && !taken["form:"+strings.ToLower(name)] {
+				hasForm = true
+				form.Add(name, "decoy-from-form")
+				planted++
+			}
+		}
+		if planted == 0 {
+			return br, false
+		}
+		why = append(why, fmt.Sprintf("%d same-named decoys in the other locations", planted))
 	}
 	// concrete path
 	path := tmpl
